@@ -159,10 +159,9 @@ Record enc_out := mkeo {
 }.
 
 Section Jwt.
-  (* json.dumps(claims, ensure_ascii=False, separators=(",", ":"), cls=encoder_cls) followed by
-     to_bytes, for the encoder_cls in use; it sees the converted claims dict as it is (a
-     datetime or foreign object left in it is a TypeError unless the encoder's default() takes it) *)
-  Variable json_dumps : claims -> res bytes.
+  (* json.dumps(obj, ensure_ascii=False, separators=(",", ":")) followed by to_bytes,
+     with the default encoder *)
+  Variable json_dumps : pv -> res bytes.
   (* json.loads(payload, cls=decoder_cls) for the decoder_cls in use: ANY function *)
   Variable json_loads : bytes -> res pv.
   (* serialize_compact | encrypt_compact: gets the dict object built by encode
@@ -178,7 +177,11 @@ Section Jwt.
   Definition convert_claims (c : claims) : claims * res bytes :=
     match convert_keys nd_keys c with
     | (c', Some e) => (c', Err e)
-    | (c', None) => (c', json_dumps c')
+    | (c', None) =>
+        (c', match claims_pv c' with
+             | None => Err EType         (* datetime / foreign object: not JSON serializable *)
+             | Some d => json_dumps (PDict d)
+             end)
     end.
 
   Definition encode (h : hdr) (c : claims) : enc_out :=
@@ -200,6 +203,34 @@ Section Jwt.
         end
     end.
 End Jwt.
+
+(* ------------------------------------------------------------------ *)
+(* The same with a caller-supplied encoder_cls: json.dumps(claims, ..., cls=encoder_cls)
+   sees the converted claims dict as it is - a datetime or foreign object left in it is
+   a TypeError only if the encoder's default() does not take it - so the codec is a
+   function of the claims.  [encode] above is the instance [lift_dumps]. *)
+Section JwtG.
+  Variable json_dumps_c : claims -> res bytes.
+  Variable transport_encode : hdr -> bytes -> res bytes * hdr.
+
+  Definition convert_claims_g (c : claims) : claims * res bytes :=
+    match convert_keys nd_keys c with
+    | (c', Some e) => (c', Err e)
+    | (c', None) => (c', json_dumps_c c')
+    end.
+
+  Definition encode_g (h : hdr) (c : claims) : enc_out :=
+    let w := typ_default h in
+    match convert_claims_g c with
+    | (c', Err e) => mkeo (Err e) h w c'
+    | (c', Ok payload) =>
+        let '(r, w') := transport_encode w payload in
+        mkeo r h w' c'
+    end.
+End JwtG.
+
+Definition lift_dumps (json_dumps : pv -> res bytes) : claims -> res bytes :=
+  fun c => match claims_pv c with None => Err EType | Some d => json_dumps (PDict d) end.
 
 (* ------------------------------------------------------------------ *)
 (* jwt.encode(header, claims, key, algorithms, registry, encoder_cls) and
@@ -228,7 +259,7 @@ Section JwtApi.
     fun t => if reg_is_jwe (ta_reg a) then jwe_decode t a else jws_decode t a.
 
   Definition jwt_encode (h : hdr) (c : claims) (a : targs) (encoder_cls : option N) : enc_out :=
-    encode (json_dumps encoder_cls) (select_encode a) h c.
+    encode_g (json_dumps encoder_cls) (select_encode a) h c.
   Definition jwt_decode (tok : bytes) (a : targs) (decoder_cls : option N) : res (hdr * pv) :=
     decode (json_loads decoder_cls) (select_decode a) tok.
 End JwtApi.
